@@ -95,6 +95,11 @@ def _run(scn, res=None):
     wire = link.wire_of(scn["frames"])
     tr = scn["transport"]
     log = run_reader(wire, dict(cfg0, quitonerror=1, handler=True), tr)
+    if log.exc and log.exc[0] in common.proto_error_names():
+        # a *protocol* rejection must be reported through the policy, never raised under ERR_LOG
+        if res is not None:
+            res.evaluations += 1
+        return ("rejection_raised_under_ERR_LOG", f"ERR_LOG + handler raised {log.exc} after {len(log.items)} items instead of reporting it to the handler")
     if log.hang or log.exc:
         if res is not None:
             res.skipped_base_failed += 1
@@ -135,8 +140,12 @@ def _run(scn, res=None):
     for name, out in (("ERR_IGNORE", ign), ("ERR_LOG without handler", nohand)):
         if out.hang:
             return ("policy_run_hangs", f"{name}: {out.hang}")
-        if out.exc:
+        if out.exc and out.exc[0] in common.proto_error_names():
             return ("non_raising_policy_raises", f"{name}: {out.exc}")
+        if out.exc:  # foreign exception: C08's business
+            if res is not None:
+                res.skipped_base_failed += 1
+            return None
         if out.items != log.items:
             return ("policy_changes_delivered_items", f"{name} delivered {len(out.items)} items, ERR_LOG+handler {len(log.items)}: {[r.hex()[:40] for r, _ in out.items][:5]} vs {[r.hex()[:40] for r, _ in log.items][:5]}")
     if log.handler_bad:
